@@ -145,7 +145,10 @@ def tuples_for(name, ds, rng, n_tuples=None):
   d = ds['d']
   if kind == 'pairs':
     n = n_tuples or max(20, 4 * d)
-    return D.pair_indices(rng, y, n // 2, n - n // 2)
+    # similar / dissimilar pairs in varying proportion (>= 3 of each)
+    frac = [0.5, 0.25, 0.75, 0.5][int(rng.randint(4))]
+    n_pos = int(min(max(3, round(frac * n)), n - 3))
+    return D.pair_indices(rng, y, n_pos, n - n_pos)
   if kind == 'triplets':
     n = n_tuples or max(30, 5 * d)
     return D.triplet_indices(rng, y, n), None
